@@ -192,7 +192,7 @@ func (tf *typeFormatter) emptyValueForType(def ast.Type) string {
 				enumValue, _ = enum.MemberForValue("")
 			}
 
-			return fmt.Sprintf("%s.%s", referredObj.Name, tools.UpperSnakeCase(enumValue.Name))
+			return fmt.Sprintf("%s.%s", formatObjectName(referredObj.Name), tools.UpperSnakeCase(enumValue.Name))
 		}
 
 		return fmt.Sprintf("new %s()", tf.config.formatPackage(refDef))
